@@ -501,13 +501,6 @@ def nodeHole : HNode → Bool
   | .obj ps => ps.any fun p => hvalHole p.2
 def heapHole (H : Heap) (v : HVal) : Bool := hvalHole v || H.any nodeHole
 
-/-- region of an API edge case -/
-def apiRegion : ApiCase → Option String
-  | .runThrowToStringHostThrows => some "run_thrown_value_tostring_host_go_panic"
-  | .setZeroObject => some "zero_object_value_go_panic"
-  | .setPtrZeroObject => some "zero_object_value_go_panic"
-  | _ => none
-
 end Dev
 
 end OttoVerif.C15.Spec
